@@ -40,6 +40,17 @@ int main(int argc, char **argv) {
             else if (fn == "dec_uc") debug_printdec_unsigned_char((unsigned char)v); else if (fn == "dec_ul") debug_printdec_unsigned_long((unsigned long)v);
             else if (fn == "hex_u8") debug_printhex_uint8((uint8_t)v); else if (fn == "hex_u16") debug_printhex_uint16((uint16_t)v); else if (fn == "hex_u32") debug_printhex_uint32((uint32_t)v); else if (fn == "hex_u64") debug_printhex_uint64((uint64_t)v);
             else if (fn == "bin_u8") debug_printbin_uint8((uint8_t)v); else if (fn == "bin_u16") debug_printbin_uint16((uint16_t)v); else if (fn == "bin_u32") debug_printbin_uint32((uint32_t)v); else if (fn == "bin_u64") debug_printbin_uint64((uint64_t)v);
+            else if (fn == "dec_us") debug_printdec_unsigned_short((unsigned short)v); else if (fn == "dec_ui") debug_printdec_unsigned_int((unsigned int)v);
+            // the C-type named hex printers (they print the object representation from its highest address down) and the pointer printer
+            else if (fn == "hex_c") debug_printhex_char((char)v); else if (fn == "hex_uc") debug_printhex_unsigned_char((unsigned char)v); else if (fn == "hex_sc") debug_printhex_signed_char((signed char)v);
+            else if (fn == "hex_us") debug_printhex_unsigned_short((unsigned short)v); else if (fn == "hex_ss") debug_printhex_signed_short((short)v);
+            else if (fn == "hex_ui") debug_printhex_unsigned_int((unsigned int)v); else if (fn == "hex_si") debug_printhex_signed_int((int)v);
+            else if (fn == "hex_ul") debug_printhex_unsigned_long((unsigned long)v); else if (fn == "hex_sl") debug_printhex_signed_long((long)v);
+            else if (fn == "hex_ull") debug_printhex_unsigned_long_long((unsigned long long)v); else if (fn == "hex_sll") debug_printhex_signed_long_long((long long)v);
+            else if (fn == "hex_ptr") debug_printhex_ptr((const void *)(uintptr_t)v);
+            // memory images: an exactly sized heap copy of the bytes, printed in address order or reversed
+            else if (fn == "mem_hex" || fn == "mem_hexr" || fn == "mem_bin" || fn == "mem_binr") { unsigned char *m = (unsigned char *)malloc(vb.size() ? vb.size() : 1); memcpy(m, vb.data(), vb.size());
+                if (fn == "mem_hex") debug_writehex(m, (uint16_t)vb.size()); else if (fn == "mem_hexr") debug_writehex_reversed(m, (uint16_t)vb.size()); else if (fn == "mem_bin") debug_writebin(m, (uint16_t)vb.size()); else debug_writebin_reversed(m, (uint16_t)vb.size()); free(m); }
             else { fprintf(stderr, "bad fn\n"); exit(3); }
             int nested = g_nest; g_nest = 0;
             Ev e("Dpr"); e.str("fn", fn.c_str()).bytes("val", vb.data(), vb.size()).bytes("out", dbg.data(), dbg.size()).i("nested", nested); e.end();
